@@ -215,7 +215,12 @@ def run_unit(unit, workdir, seed=None, rlimit=None, do_canary=True, keep=None):
             cl_text = (cs.get("text") or [{}])[0].get("text", "")
             # a multi-line clause: the label may be on any of its lines
             lab = None
-            for ln in range(cs["line_start"], cs["line_end"] + 1):
+            if os.path.basename(cs.get("file_name", "")) != os.path.basename(path):
+                # the clause belongs to a contract vstd states for a std trait method (e.g. Iterator::next)
+                lab = "vstd:%s:%d" % (os.path.basename(cs.get("file_name", "?")), cs["line_start"])
+                cl_text = "(clause of the contract vstd gives this std trait method, %s line %d)" % (cs.get("file_name", "?"), cs["line_start"])
+            else:
+              for ln in range(cs["line_start"], cs["line_end"] + 1):
                 lab = lab or label_of(lines[ln - 1] if ln - 1 < len(lines) else "")
             at = [s for s in spans if s is not cs]
             at_line = at[0]["line_start"] if at else ps["line_start"]
